@@ -27,6 +27,8 @@ func handlerScope(c *cx) ([]*eng.Fn, map[*eng.Fn]string) {
 func runC06(p *eng.Prog, r *eng.Report, tier string) {
 	c := &cx{p, r, tier}
 	c06SendResp(c)
+	c.r.Floor("C06.31", "blocking channel operations", lockHeldAcrossChannelOp(c, "C06.31", ""), 8)
+	c.r.Floor("C06.30", "closers received from a channel", receivedCloserNotDropped(c, "C06.30", func(f *eng.Fn) bool { return true }), 3)
 	c06Handoff(c)
 	scope, why := handlerScope(c)
 	chanRules(c, "C06.3", scope, why)
